@@ -33,6 +33,16 @@ type AnnotationLinkValidator struct {
 
 // NewAnnotationLinkValidator constructs the validator.
 func NewAnnotationLinkValidator(recv *metadata.ReceiverMeta) (AnnotationLinkValidator, error) {
+	return NewAnnotationLinkValidatorForController(nil, recv)
+}
+
+// NewAnnotationLinkValidatorForController constructs the validator for a receiver of the given controller.
+// URL parameters declared by the controller's own @Route prefix are part of the receiver's full
+// route template and have to be bound by a @Path annotation just like the receiver's own.
+func NewAnnotationLinkValidatorForController(
+	controller *metadata.ControllerMeta,
+	recv *metadata.ReceiverMeta,
+) (AnnotationLinkValidator, error) {
 	if recv == nil {
 		return AnnotationLinkValidator{}, errors.New("cannot construct an annotation link validator for a nil receiver")
 	}
@@ -46,8 +56,15 @@ func NewAnnotationLinkValidator(recv *metadata.ReceiverMeta) (AnnotationLinkVali
 		receiver:          recv,
 		groupedAttributes: classifiedAttrs,
 		funcParamNames:    getReceiverParamsNameSet(recv),
-		urlParams:         extractUrlParams(classifiedAttrs.route.Value),
+		urlParams:         extractUrlParams(getControllerRoutePrefix(controller) + classifiedAttrs.route.Value),
 	}, nil
+}
+
+func getControllerRoutePrefix(controller *metadata.ControllerMeta) string {
+	if controller == nil || controller.Struct.Annotations == nil {
+		return ""
+	}
+	return controller.Struct.Annotations.GetFirstValueOrEmpty(annotations.GleeceAnnotationRoute)
 }
 
 // Validate runs the nine checks and returns resolved diagnostics.
